@@ -27,6 +27,7 @@ func runC08(c *an.Ctx) {
 	r08e(c)
 	r08f(c)
 	pendingResetRule(c, "R08g")
+	pendingMutationRule(c, "R08h")
 }
 
 func r08a(c *an.Ctx) {
@@ -606,4 +607,117 @@ func sameSliceCell(a, b ssa.Value) bool {
 	ua, okA := an.Strip(a).(*ssa.UnOp)
 	ub, okB := an.Strip(b).(*ssa.UnOp)
 	return okA && okB && ua.X == ub.X
+}
+
+// pendingMutationRule (shared by C06, C08 and C09): besides the guarded creation of an empty container (pendingResetRule)
+// the pending-await bookkeeping of handleHooks changes in two ways only: a started call is appended to the entry as it
+// is, and the entry that has just been awaited is deleted. Teardown walks this structure to cancel what is still
+// pending, and the await points collect from it: a call that leaves it any other way is neither awaited nor cancelled.
+func pendingMutationRule(c *an.Ctx, rule string) {
+	c.Rule(rule, "handleHooks: callsPendingAwait only grows by appending the started call to its entry and only shrinks by deleting the entry just awaited", 2)
+	fn := c.MustFn("core/environment", "Environment.handleHooks")
+	if fn == nil {
+		return
+	}
+	// the map operand is the callsPendingAwait field itself or one of its per-moment maps (not a map that merely holds
+	// values computed from it)
+	var isPending func(m ssa.Value) bool
+	seenM := map[ssa.Value]bool{}
+	isPending = func(m ssa.Value) bool {
+		m = an.Strip(m)
+		if seenM[m] {
+			return false
+		}
+		seenM[m] = true
+		defer delete(seenM, m)
+		switch x := m.(type) {
+		case *ssa.UnOp:
+			if f := an.FieldOf(x); f != nil && f.Name() == "callsPendingAwait" {
+				return true
+			}
+			if al, isAl := x.X.(*ssa.Alloc); isAl && al.Referrers() != nil {
+				for _, r := range *al.Referrers() {
+					if st, isSt := r.(*ssa.Store); isSt && st.Addr == ssa.Value(al) && isPending(st.Val) {
+						return true
+					}
+				}
+			}
+		case *ssa.Lookup:
+			return isPending(x.X)
+		case *ssa.Extract:
+			if lk, isLk := x.Tuple.(*ssa.Lookup); isLk && x.Index == 0 {
+				return isPending(lk.X)
+			}
+		case *ssa.Phi:
+			for _, e := range x.Edges {
+				if isPending(e) {
+					return true
+				}
+			}
+		}
+		return false
+	}
+	awaits := an.CallsSuffix(fn, "callable.Calls).AwaitAll")
+	an.Instrs(fn, func(in ssa.Instruction) {
+		switch x := in.(type) {
+		case *ssa.MapUpdate:
+			if !isPending(x.Map) {
+				return
+			}
+			switch v := x.Value.(type) {
+			case *ssa.MakeMap, *ssa.MakeSlice:
+				return // creation: pendingResetRule
+			case *ssa.Slice:
+				if _, isAl := v.X.(*ssa.Alloc); isAl {
+					return
+				}
+			case *ssa.Call:
+				if an.CalleeName(&v.Call) == "builtin.append" {
+					c.Subject()
+					entry := an.ExprKey(x.Map) + "[" + an.ExprKey(x.Key) + "]"
+					base := an.Strip(v.Call.Args[0])
+					same := false
+					if lk, isLk := base.(*ssa.Lookup); isLk && an.ExprKey(lk.X)+"["+an.ExprKey(lk.Index)+"]" == entry {
+						same = true
+					}
+					if ex, isEx := base.(*ssa.Extract); isEx && ex.Index == 0 {
+						if lk, isLk := ex.Tuple.(*ssa.Lookup); isLk && an.ExprKey(lk.X)+"["+an.ExprKey(lk.Index)+"]" == entry {
+							same = true
+						}
+					}
+					c.Ob("(*core/environment.Environment).handleHooks|register-appends-to-entry", x.Pos(), same,
+						"the started call must be appended to the pending list exactly as it stands (append(entry, call) stored back into the same entry): a list rebuilt or filtered on the way drops calls that were started and are then neither awaited nor cancelled")
+					return
+				}
+			}
+			c.Subject()
+			c.Ob("(*core/environment.Environment).handleHooks|pending-entry-overwritten", x.Pos(), false, "an entry of the pending-await structure is overwritten with something that is neither a fresh empty container nor the entry plus the started call")
+		case *ssa.Call:
+			if an.CalleeName(&x.Call) != "builtin.delete" || !isPending(x.Call.Args[0]) {
+				return
+			}
+			c.Subject()
+			// the entry deleted is the one AwaitAll has just been called on
+			ok := false
+			entry := an.ExprKey(x.Call.Args[0]) + "[" + an.ExprKey(x.Call.Args[1]) + "]"
+			for _, aw := range awaits {
+				awc, isCall := aw.(*ssa.Call)
+				if !isCall || !an.Dominates(awc, x) {
+					continue
+				}
+				recv := an.Strip(awc.Call.Args[0])
+				var lk *ssa.Lookup
+				if l, isLk := recv.(*ssa.Lookup); isLk {
+					lk = l
+				} else if ex, isEx := recv.(*ssa.Extract); isEx && ex.Index == 0 {
+					lk, _ = ex.Tuple.(*ssa.Lookup)
+				}
+				if lk != nil && an.ExprKey(lk.X)+"["+an.ExprKey(lk.Index)+"]" == entry {
+					ok = true
+				}
+			}
+			c.Ob("(*core/environment.Environment).handleHooks|delete-only-awaited-entry", x.Pos(), ok,
+				"entries leave the pending-await structure only after AwaitAll returned for that very (moment, weight) entry: deleting anything else (a whole moment, another weight) forgets calls that are still running - they are never collected and teardown cannot cancel them")
+		}
+	})
 }
